@@ -521,3 +521,84 @@ Proof.
   induction fuel as [|f IH]; intros s r H; cbn [jump_until]; [exact H|].
   destruct (_ <? _); [|exact H]. apply IH. split; [apply aok_jump, H|apply pok_jump, H].
 Qed.
+
+(** ** Totality of the replay handler outside the two guards *)
+Lemma replay_insert_cases s hd r : tinv s ->
+  (replay_store_refuses s hd = true /\ replay_insert s hd r = Panic site_replay_refused) \/
+  (replay_store_refuses s hd = false /\
+   okT (fun s1 => aok s1 /\ (hdr_wf hd -> pok s1)) (replay_insert s hd r)).
+Proof.
+  intros [A P]. unfold replay_store_refuses, replay_insert.
+  destruct (existsb _ (v_phs (k_vot s))); cbn [negb andb].
+  - right. split; [reflexivity|]. apply okT_ret. split; [exact A|intros _; exact P].
+  - destruct (existsb _ (st_rounds s)).
+    + left. split; reflexivity.
+    + right. split; [reflexivity|]. apply okT_ret. split; [exact A|].
+      intros Hw q [Hq|Hq]; cbn in Hq.
+      * apply in_app_or in Hq as [Hq|[Hq|[]]]; [apply P; left; exact Hq|subst q; exact Hw].
+      * apply P; right; exact Hq.
+Qed.
+
+Lemma replay_finish_total s1 hd cp temp : aok s1 ->
+  okT (fun sr => pok s1 -> tinv (fst sr)) (replay_finish s1 hd cp temp).
+Proof.
+  intros H. pose proof H as (A&_&_). unfold replay_finish.
+  assert (Hsame : okT (fun sr : kstate * N => pok s1 -> tinv (fst sr)) (Ok (s1, 2)))
+    by (apply okT_ret; intros Hp; split; assumption).
+  destruct (pm_get temp (hd_hash hd)); [|exact Hsame].
+  destruct (maj_ok _ A) as [maj Hm]. rewrite Hm. cbn [bind].
+  destruct (_ <? maj); [exact Hsame|]. cbv zeta.
+  match goal with |- okT _ (bind (check_voting_precommit_shift ?X) _) => set (s2 := X) end.
+  assert (A2 : aok s2).
+  { eapply aok_frame; [| | |exact H]; unfold s2;
+      cbn [k_vot k_nxt k_chdr log_w set_rounds set_vot v_sum with_sum with_pc]; try reflexivity.
+    apply sm_avail_set_precommits. }
+  assert (P2 : pok s1 -> pok s2) by (intros Hp; exact Hp).
+  eapply okT_bind; [apply check_voting_total; exact A2|].
+  cbv beta. intros s3 Hs3. apply okT_ret. cbn [fst]. intros Hp. apply Hs3, P2, Hp.
+Qed.
+
+Lemma handle_replay_total ih ivs s0 hd cp :
+  INV ih ivs s0 -> tinv s0 -> cp_round cp < two32 ->
+  (okT (fun sr => pow_ok (hd_next hd) -> tinv (fst sr)) (handle_replay s0 hd cp) /\
+   replay_earlier_guard s0 hd cp = false /\ replay_refused_guard s0 hd cp = false) \/
+  (replay_earlier_guard s0 hd cp = true /\ handle_replay s0 hd cp = Panic site_replay_earlier) \/
+  (replay_refused_guard s0 hd cp = true /\ handle_replay s0 hd cp = Panic site_replay_refused).
+Proof.
+  intros HI HT Hb. rewrite handle_replay_eq.
+  unfold handle_replay', replay_earlier_guard, replay_refused_guard.
+  destruct (hd_height hd =? v_h (k_vot s0)) eqn:Hh; cbn [negb andb];
+    [|left; split; [apply okT_ret; intros _; exact HT|split; reflexivity]].
+  apply N.eqb_eq in Hh.
+  destruct (N.ltb_spec (cp_round cp) (v_r (k_vot s0))) as [Hlt|Hge]; [right; left; split; reflexivity|].
+  rewrite (proj2 (N.leb_le _ _) Hge). cbn [andb]. cbv zeta.
+  destruct (replay_jumped_reaches ih ivs s0 cp (proj1 HI) Hge Hb) as [Er Eh].
+  pose proof (INV_jump_until ih ivs (N.to_nat (cp_round cp - v_r (k_vot s0))) s0 (cp_round cp) HI) as HIs.
+  pose proof (tinv_jump_until (N.to_nat (cp_round cp - v_r (k_vot s0))) s0 (cp_round cp) HT) as HTs.
+  fold (replay_jumped s0 cp) in HIs, HTs.
+  set (s := replay_jumped s0 cp) in *.
+  assert (Hpos : (v_r (k_vot s) =? cp_round cp) && (v_h (k_vot s) =? hd_height hd) = true).
+  { rewrite Er, Eh, Hh, !N.eqb_refl. reflexivity. }
+  rewrite Hpos. cbn [negb].
+  assert (Hsame : forall r0, okT (fun sr : kstate * N => pow_ok (hd_next hd) -> tinv (fst sr)) (Ok (s, r0)))
+    by (intros r0; apply okT_ret; intros _; exact HTs).
+  unfold replay_checks.
+  destruct (hd_ok hd); cbn [negb andb]; [|left; split; [apply Hsame|split; reflexivity]].
+  destruct (negb (hd_height hd =? k_init_h s) && negb (bytes_eqb (hd_prev hd) (chdr_hash s)));
+    cbn [negb andb]; [left; split; [apply Hsame|split; reflexivity]|].
+  destruct (valset_equal (hd_vals hd) (v_vals (k_vot s)) && vs_ok (hd_vals hd)) eqn:Hveq;
+    cbn [negb andb]; [|left; split; [apply Hsame|split; reflexivity]].
+  assert (Hvals : pow_ok (hd_vals hd)).
+  { apply andb_true_iff in Hveq as [Hveq _]. destruct (valset_equal_keys _ _ Hveq) as [_ Hpows].
+    destruct HIs as (_&_&[[Savail _] _]&_). destruct HTs as [([A1 _]&_) _].
+    unfold pow_ok. rewrite Hpows, <- Savail. lia. }
+  destruct (vs_ok (hd_next hd)); cbn [negb andb]; [|left; split; [apply Hsame|split; reflexivity]].
+  destruct (replay_temp s hd cp) as [temp allv]; cbn [snd].
+  destruct allv; cbn [negb andb]; [|left; split; [apply Hsame|split; reflexivity]].
+  destruct (replay_insert_cases s hd (cp_round cp) HTs) as [[G E]|[G E]].
+  - right; right. split; [exact G|rewrite E; reflexivity].
+  - left. rewrite G. split; [|split; reflexivity].
+    eapply okT_bind; [exact E|]. cbv beta. intros s1 (A1&P1).
+    eapply okT_mono; [apply replay_finish_total; exact A1|].
+    cbv beta. intros sr Hsr Hn. apply Hsr, P1. split; [exact Hvals|exact Hn].
+Qed.
